@@ -10,6 +10,7 @@ from vlib import sh, log
 
 CANON = re.compile(r"^[0-9a-f]{16}-[0-9a-f]{16}$")
 PFADD_HEX = "7066616464"
+F1_SIG = "local snapshot copy overwrites hard-linked sst files in place"
 K1_SIG = "checkpoint of index i contains writes applied after the apply loop was released"
 
 
@@ -171,6 +172,12 @@ def oracle(cases, order, impl, skeleton):
             if any(n.endswith(".sst") and n in ck for n in cur):
                 stats["plan_kept_sst"] += 1
                 nontrivial.add(vlib.case_hash("\t".join(c)))
+        elif kind == "E":
+            want = "fetch=ok ck2_unchanged=1 live_unchanged=1 restore2=ok:1 restore3=ok:1"
+            if out != want:
+                fails.append(dict(name="fetch-" + cid, base=cid, signature=F1_SIG,
+                                  what="fetching a newer checkpoint from a source that reused sst numbers (%s r1=%s r2=%s): %s" % (c[1], c[2], c[3], out)))
+            nontrivial.add(vlib.case_hash("\t".join(c)))
         elif kind == "K":
             p = out.split(" ")
             if len(p) != 2 or p[0] != p[1]:
@@ -217,7 +224,7 @@ def oracle(cases, order, impl, skeleton):
             if newv[o] != val[o]:
                 bad("an operation on one store changed the content of the other")
             name = None
-            if op in ("B", "R", "Y", "O"):
+            if op in ("B", "R", "Y", "O", "F"):
                 name = "%016x-%016x" % (int(c[3], 16), int(c[4], 16))
             if op == "W":
                 pass
@@ -280,12 +287,27 @@ def oracle(cases, order, impl, skeleton):
                     dgs[o].pop(name, None)
                 else:
                     bad("copying a checkpoint failed: " + res)
+            elif op == "F":
+                if res == "ok":
+                    stats["fetches"] = stats.get("fetches", 0) + 1
+                    if name not in rec[s]:
+                        if name not in rec[o]:
+                            bad("PrepareSnapshot succeeded although no store holds the checkpoint")
+                        else:
+                            rec[s][name] = rec[o][name]
+                            if newd[s] is not None and newd[o] is not None and newd[s].get(name) != newd[o].get(name):
+                                bad("fetched checkpoint %s differs on disk from the source's" % name)
+                elif res == "nosrc":
+                    if name in rec[o] or name in rec[s]:
+                        bad("PrepareSnapshot found no backup although a store holds it")
+                else:
+                    bad("PrepareSnapshot failed: " + res)
             elif op == "S":
                 latest[s] = int(c[3], 16)
             elif op == "Z":
                 if not has_pf and newv[s] != val[s]:
                     bad("close + reopen changed the content of the store")
-            if op in ("R", "Y", "O", "S", "X") and not (op == "R" and res == "ok") and newv[s] != val[s]:
+            if op in ("R", "Y", "O", "S", "X", "F") and not (op == "R" and res == "ok") and newv[s] != val[s]:
                 bad("operation %s changed the content of the store" % op)
             if op != "R":
                 last_restore[s] = None if op in ("W", "B", "Z") else last_restore[s]
@@ -366,9 +388,9 @@ def run(ctx):
         raise SystemExit(2)
 
     if quick:
-        args = "-seed %d -ndir 400 -nplan 150 -ntrace 2 -tracelen 40 -engines pebble,rocksdb,mem -k1 none" % ctx.seed
+        args = "-seed %d -ndir 500 -nplan 200 -ntrace 3 -tracelen 45 -nfetch 1 -engines pebble,rocksdb,mem -k1 none" % ctx.seed
     else:
-        args = "-seed %d -ndir 6000 -nplan 1500 -ntrace 14 -tracelen 70 -engines pebble,rocksdb,mem -k1 pebble,rocksdb,mem -k1mb 48" % ctx.seed
+        args = "-seed %d -ndir 6000 -nplan 1500 -ntrace 14 -tracelen 70 -nfetch 8 -engines pebble,rocksdb,mem -k1 pebble,rocksdb,mem -k1mb 48" % ctx.seed
     runs = []
     corpus = sorted(glob.glob(os.path.join(vlib.VERIF, "corpus", "C14", "*.tsv")))
     if ctx.replay:
@@ -404,13 +426,13 @@ def run(ctx):
             byk = {}
             for cid in order:
                 byk.setdefault(cases[cid][0], cid)
-            for kd in ("P", "F", "TO", "L", "K"):
+            for kd in ("P", "F", "TO", "L", "E", "K"):
                 if kd in byk:
                     cid = byk[kd]
                     samples.append(dict(case=[x[:160] for x in cases[cid]], impl=(impl.get(cid) or "")[:300]))
 
     def search():
-        d2, err = run_impl(ctx, "search", "-seed %d -ndir 3000 -nplan 800 -ntrace 6 -tracelen 60 -engines pebble,rocksdb,mem -k1 pebble,rocksdb -k1mb 48" % (ctx.seed + 1000003))
+        d2, err = run_impl(ctx, "search", "-seed %d -ndir 3000 -nplan 800 -ntrace 6 -tracelen 60 -nfetch 4 -engines pebble,rocksdb,mem -k1 pebble,rocksdb -k1mb 48" % (ctx.seed + 1000003))
         if d2 is None:
             return []
         return evaluate(d2)[4]
@@ -430,7 +452,8 @@ def run(ctx):
              "T: histories on two real state machines per engine (writes of every data type incl. INCR counters, table counters, TTLs, "
              "HyperLogLog; Backup at random instants with writes while the copy runs; Restore on the same store, repeated, and on the "
              "other store after copying the checkpoint directory; compaction; close+reopen; SetLatestSnapIndex; small KeepBackup traces "
-             "where the purge really removes); K: 32MB unflushed memtable + INCR traffic racing with the checkpoint copy. "
+             "where the purge really removes; fetch of a checkpoint by the real kvStoreSM.PrepareSnapshot from the peer store); "
+             "E: two checkpoints fetched and restored, the source falls back to its first checkpoint and reuses sst numbers with other content, third fetch; K: 32MB unflushed memtable + INCR traffic racing with the checkpoint copy. "
              "Non-trivial = a purge that removes, a plan with an sst present on both sides, a restore that really rolls the content back, "
              "any N/C/L/K; distinct by hash of the case.",
         histogram=hist_all,
